@@ -73,15 +73,21 @@ def replay_call(path, call_text):
         "try:\n"
         "    r = eval(%r, ns)\n"
         "except Exception as e:\n"
-        "    print('REPRODUCED exception', type(e).__name__, e); sys.exit(0)\n"
+        "    import traceback\n"
+        "    tb = traceback.extract_tb(e.__traceback__)\n"
+        "    o = getattr(e, 'obj', None) if isinstance(e, AttributeError) else None\n"
+        "    om = getattr(type(o), '__module__', '') if o is not None else ''\n"
+        "    standin = om == 'h' or om.startswith(('props', 'vlib', 'chx')) or (tb and tb[-1].filename.startswith(%r))\n"
+        "    # an exception raised BY a harness stand-in (a method the stand-in lacks, a guard inside it) is a limit of the harness, not behaviour of the code\n"
+        "    print(('HARNESS-STANDIN exception' if standin else 'REPRODUCED exception'), type(e).__name__, e); sys.exit(0)\n"
         "print('REPRODUCED returns %%r' %% (r,) if not r else 'NOT-REPRODUCED returns %%r' %% (r,))\n"
-    ) % (ROOT, path, call_text)
+    ) % (ROOT, path, call_text, ROOT)
     env = dict(os.environ)
     env.pop("VERIF_CHX", None)
     env["PYTHONPATH"] = (os.environ["VERIF_REPO"] + ":" if os.environ.get("VERIF_REPO") else "") + ROOT
     p = subprocess.run([PY, "-c", code], capture_output=True, text=True, env=env, timeout=600)
     txt = (p.stdout + p.stderr).strip()
-    return ("REPRODUCED" in p.stdout and "NOT-REPRODUCED" not in p.stdout), txt[-800:], code
+    return ("REPRODUCED" in p.stdout and "NOT-REPRODUCED" not in p.stdout and "HARNESS-STANDIN" not in p.stdout), txt[-800:], code
 
 
 def run_conditions(run, path, conds, engine="E1:crosshair", env_extra=None, workers=16):
